@@ -26,6 +26,9 @@ pub struct SessionSpec {
     /// close the client socket right after the last send, while the (slow) reply is in flight
     pub vanish: bool,
     pub enforce_client: bool,
+    /// send all datagrams of the session back to back (inline: in one write) and collect the replies afterwards
+    #[serde(default)]
+    pub burst: bool,
 }
 
 #[derive(Clone, Debug, Serialize, Deserialize)]
@@ -34,12 +37,13 @@ pub struct Case {
 }
 
 pub fn case_strategy() -> impl Strategy<Value = Case> {
-    let s = (0u8..3, 0u8..5, prop::collection::vec((0u8..3, 0u8..12), 1..7), prop::bool::weighted(0.2), any::<bool>()).prop_map(|(listener, connector, sends, vanish, enforce_client)| SessionSpec {
+    let s = (0u8..3, 0u8..5, prop::collection::vec((0u8..3, 0u8..12), 1..7), prop::bool::weighted(0.2), any::<bool>(), prop::bool::weighted(0.3)).prop_map(|(listener, connector, sends, vanish, enforce_client, burst)| SessionSpec {
         listener,
         connector,
         sends,
-        vanish,
+        vanish: vanish && !burst,
         enforce_client,
+        burst,
     });
     prop::collection::vec(s, 1..6).prop_map(|sessions| Case { sessions })
 }
@@ -323,9 +327,60 @@ pub async fn run_case(fx: &Fx, c: &Case, base_tag: u32) -> Result<(bool, serde_j
     let max_sends = c.sessions.iter().map(|s| s.sends.len()).max().unwrap_or(0);
     let mut sent: Vec<Vec<(usize, Vec<u8>)>> = vec![vec![]; c.sessions.len()]; // (origin idx, payload)
     let mut vanished = vec![false; c.sessions.len()];
+    // ---- burst sessions: everything at once, replies judged as a multiset
+    for (si, s) in c.sessions.iter().enumerate() {
+        if !s.burst {
+            continue;
+        }
+        let lk = s.listener % 3;
+        let path = path_names[si].clone();
+        let mut wire = vec![];
+        let mut want: HashMap<Vec<u8>, usize> = HashMap::new();
+        for (round, (oi, sz)) in s.sends.iter().enumerate() {
+            let oi = if lk == 1 { 0 } else { (*oi % 3) as usize };
+            // small datagrams only: a burst of large ones may legitimately overflow a socket buffer
+            let size = [9usize, 100, 1199, 1200, 1201, 1472][(*sz as usize) % 6];
+            let p = payload_for(base_tag + si as u32, round as u32, size, false);
+            sent[si].push((oi, p.clone()));
+            let mut reply = vec![fx.origins[oi].tag];
+            reply.extend_from_slice(&p);
+            *want.entry(reply).or_insert(0) += 1;
+            wire.push((fx.origins[oi].addr, p));
+        }
+        let conn = conns[si].as_mut().unwrap();
+        if let Conn::Inline { stream, .. } = conn {
+            let mut all = vec![];
+            for (d, p) in &wire {
+                all.extend(rc::encode_rpfm(&Rpfm { session: 0, addr: Some(dest_for(*d)), body: p.clone() }).unwrap());
+            }
+            stream.write_all(&all).await.map_err(|e| Failure::new(format!("send-failed:{}", path), e.to_string()))?;
+        } else {
+            for (d, p) in &wire {
+                send(conn, *d, p).await.map_err(|e| Failure::new(format!("send-failed:{}", path), e))?;
+            }
+        }
+        let mut got = 0usize;
+        while got < wire.len() {
+            match recv(conn, Duration::from_secs(4)).await {
+                None => {
+                    return Err(Failure::new(
+                        format!("datagram-lost:{}:burst", path),
+                        format!("{}: {} datagrams were sent back to back, only {} replies came back within 4 s (origins received {:?})", path, wire.len(), got, fx.origins.iter().map(|o| o.received.lock().unwrap().len()).collect::<Vec<_>>()),
+                    ))
+                }
+                Some((_, body)) => match want.get_mut(&body) {
+                    Some(n) if *n > 0 => {
+                        *n -= 1;
+                        got += 1;
+                    }
+                    _ => return Err(Failure::new(format!("reply-payload-differs:{}:burst", path), format!("{}: a reply of {} bytes (first {:02x?}) answers none of the outstanding datagrams of the burst", path, body.len(), &body[..body.len().min(12)]))),
+                },
+            }
+        }
+    }
     for round in 0..max_sends {
         for (si, s) in c.sessions.iter().enumerate() {
-            if round >= s.sends.len() || vanished[si] {
+            if round >= s.sends.len() || vanished[si] || s.burst {
                 continue;
             }
             let (oi, sz) = s.sends[round];
@@ -427,7 +482,7 @@ pub async fn run_case(fx: &Fx, c: &Case, base_tag: u32) -> Result<(bool, serde_j
             }
         }
     }
-    let nontrivial = c.sessions.len() >= 2 || c.sessions.iter().any(|s| s.vanish) || sent.iter().flatten().any(|(_, p)| p.len() > 1200);
+    let nontrivial = c.sessions.len() >= 2 || c.sessions.iter().any(|s| s.vanish || s.burst && s.sends.len() >= 2) || sent.iter().flatten().any(|(_, p)| p.len() > 1200);
     Ok((nontrivial, json!({"paths": path_names, "datagrams": sent.iter().map(|s| s.iter().map(|(o, p)| (*o, p.len())).collect::<Vec<_>>()).collect::<Vec<_>>(), "vanished": vanished})))
 }
 
@@ -440,7 +495,7 @@ impl SubCheck for UdpCheck {
         "paths"
     }
     fn rule(&self) -> String {
-        "two real proxies (A in front of B, B with socks / http / quic listeners): every UDP listener {SOCKS5 UDP ASSOCIATE with enforceUdpClient off/on, reverse-UDP, HTTP CONNECT with Proxy-Protocol: udp (RPFM frames inline)} x upstream {direct, socks5->B, http->B inline, QUIC datagrams->B, QUIC inline->B} once each (enumerated), then generated cases of 1-5 concurrent sessions with 1-6 interleaved datagrams each to three tagging echo origins on 127.0.1.1-3, payload sizes from {0, 1, 8, 100, 1199, 1200, 1201, 1472, 4096, 9000, 30000, 65000}, and sessions that vanish while a slow reply is in flight; oracle: every datagram (incl. the first of a session and multi-fragment ones) reaches the addressed origin exactly once with identical payload, every reply returns to the owning client labelled with the replying origin's address, no origin ever receives a datagram nobody sent (no phantom after a receive error); non-trivial = >= 2 interleaved sessions, a vanishing client, or a payload above 1200 bytes".into()
+        "two real proxies (A in front of B, B with socks / http / quic listeners): every UDP listener {SOCKS5 UDP ASSOCIATE with enforceUdpClient off/on, reverse-UDP, HTTP CONNECT with Proxy-Protocol: udp (RPFM frames inline)} x upstream {direct, socks5->B, http->B inline, QUIC datagrams->B, QUIC inline->B} once paced and once as a burst of six (enumerated), then generated cases of 1-5 concurrent sessions with 1-6 interleaved datagrams each to three tagging echo origins on 127.0.1.1-3, payload sizes from {0, 1, 8, 100, 1199, 1200, 1201, 1472, 4096, 9000, 30000, 65000}, sessions that vanish while a slow reply is in flight, and burst sessions whose 1-6 datagrams (<= 1472 bytes) are sent back to back (inline: in one write) with the replies judged as a multiset; oracle: every datagram (incl. the first of a session and multi-fragment ones) reaches the addressed origin exactly once with identical payload, every reply returns to the owning client labelled with the replying origin's address, no origin ever receives a datagram nobody sent (no phantom after a receive error); non-trivial = >= 2 interleaved sessions, a vanishing client, a burst of >= 2, or a payload above 1200 bytes".into()
     }
     fn run(&self, part: &mut Part) {
         let n = part.tier.pick(30, 1500) as usize;
@@ -451,7 +506,8 @@ impl SubCheck for UdpCheck {
                     if enforce && l != 0 {
                         continue;
                     }
-                    cases.push(Case { sessions: vec![SessionSpec { listener: l, connector: cn, sends: vec![(0, 3), (1, 5), (2, 8), (0, 9)], vanish: false, enforce_client: enforce }] });
+                    cases.push(Case { sessions: vec![SessionSpec { listener: l, connector: cn, sends: vec![(0, 3), (1, 5), (2, 8), (0, 9)], vanish: false, enforce_client: enforce, burst: false }] });
+                    cases.push(Case { sessions: vec![SessionSpec { listener: l, connector: cn, sends: vec![(0, 1), (1, 2), (2, 3), (0, 4), (1, 5), (2, 0)], vanish: false, enforce_client: enforce, burst: true }] });
                 }
             }
         }
